@@ -453,6 +453,57 @@ pub fn lockstep(o: &Opts, rep: &mut Report, prop: &str, n: u64, ts48: &[usize], 
     }
 }
 
+/// Interrupt-driven programs in lock-step across a frame start: `EI; HALT` loops under IM 2 with a handler
+/// that re-enables interrupts at once (re-entered while the 32-T pulse lasts) or only after more than 32 T
+/// (once per frame), and a repeating LDIR with interrupts enabled started at every phase relative to the
+/// frame start; code, vector table and stack in uncontended or contended RAM.
+pub fn interrupt_programs(o: &Opts, rep: &mut Report, prop: &str) {
+    let mut model = Model::spawn(&o.model, "SYS");
+    let mut failures = 0;
+    for m128 in [false, true] {
+        let l: usize = if m128 { 70908 } else { 69888 };
+        for base in [0x8000u16, 0x6000] {
+            // main programs at base, vector table at base+0xEFF/0xF00, handlers at base+0x1000, stack below base+0x1F00
+            let table = (base + 0x0EFF, vec![(base + 0x1000) as u8, ((base + 0x1000) >> 8) as u8]);
+            let halt_loop = (base, vec![0xFB, 0x76, 0x18, 0xFC]);
+            let ldir_loop = (base, vec![0xFB, 0x21, 0x00, 0xA0, 0x11, 0x00, 0xB0, 0x01, 0x00, 0x30, 0xED, 0xB0, 0x18, 0xF3]);
+            let short_handler = (base + 0x1000, vec![0xFB, 0x04, 0xC9]);
+            let mut long = vec![0x04];
+            long.extend_from_slice(&[0x00; 10]);
+            long.extend_from_slice(&[0xFB, 0xC9]);
+            let long_handler = (base + 0x1000, long);
+            let mut cases: Vec<(Vec<(u16, Vec<u8>)>, usize, usize)> = vec![];
+            for k in 0..12usize {
+                cases.push((vec![table.clone(), halt_loop.clone(), short_handler.clone()], l - 60 - 3 * k, 40));
+                cases.push((vec![table.clone(), halt_loop.clone(), long_handler.clone()], l - 60 - 3 * k, 40));
+            }
+            for k in 0..(if o.thorough() { 84 } else { 42 }) {
+                cases.push((vec![table.clone(), ldir_loop.clone(), short_handler.clone()], l - 400 - k, 50));
+            }
+            for (pokes, t, steps) in cases {
+                let mut st = St::default();
+                st.w[PC] = base;
+                st.w[SP] = base + 0x1F00;
+                st.w[IR] = (base + 0x0E00) & 0xFF00;
+                st.im = 2;
+                let c = SysCase { m128, kempston: false, mouse: false, latch: 0, t, st, pokes, steps };
+                rep.count("cases", "whole-machine lock-step: interrupt program across a frame start");
+                rep.count_n("lockstep_steps", if m128 { "128k" } else { "48k" }, steps as u64);
+                if let Some(f) = check(&mut model, &c, Some(rep)) {
+                    failures += 1;
+                    if failures <= 6 {
+                        record(&mut model, rep, prop, &c, f);
+                    } else {
+                        rep.count("repeat_violations", "interrupt-program failures beyond the first 6 (not shrunk)");
+                    }
+                } else {
+                    rep.class(format!("interrupt program ok {} base={:04x} phase={}", m128, base, (l - t) % 42));
+                }
+            }
+        }
+    }
+}
+
 pub fn replay(o: &Opts, rep: &mut Report, prop: &str, text: &str) {
     let mut model = Model::spawn(&o.model, "SYS");
     if let Some(c) = SysCase::parse(text) {
